@@ -35,14 +35,31 @@ def grid(ctx, bits, maxmod, n):
 
 
 def body(ctx):
-    if ctx.replay:
-        raise vf.InfraError("replay of tabulated events: re-run the check with the seed recorded in the evidence")
     ctx.model("IEEECheck.tla", "IEEECheckQuick.cfg", timeout=1200)
     rng = ctx.rng
     plan = []
     meta = {}      # plan id -> (fn, [points])
     req = []
-    for t, nb, bits in FT:
+    if ctx.replay:
+        # a replay file holds plan lines; tabulated functions find their points in the lanes of the operand rows
+        for line in lanes.replay_plan(ctx.replay):
+            f = line.split()
+            nb, bits = (4, 32) if f[2] == "f32" else (8, 64)
+            L = 64 // nb
+            lanes_of = lambda hx: [int.from_bytes(bytes.fromhex(hx)[i * nb:(i + 1) * nb], "little") for i in range(L)]
+            plan.append(line)
+            fn = f[1]
+            if f[0] in ("cx1", "cxr") and fn in TAB1 + TABR:
+                pts = [("c:" + fn, a, b) for a, b in zip(lanes_of(f[4]), lanes_of(f[5]))]
+            elif f[0] == "cxp":
+                pts = [("c:pow", a, b, y) for a, b, y in zip(lanes_of(f[4]), lanes_of(f[5]), lanes_of(f[6]))]
+            elif f[0] == "cxq":
+                pts = [("c:polar", a, b) for a, b in zip(lanes_of(f[4]), lanes_of(f[5]))]
+            else:
+                continue
+            meta[len(plan)] = (fn, pts, bits)
+            req += [(bits,) + p for p in pts]
+    for t, nb, bits in ([] if ctx.replay else FT):
         L = 64 // nb
 
         def rows_of(pts):
